@@ -123,7 +123,7 @@ def limits_for(pattern, g, c):
 
 
 IFACE_MODELS = ["cylinder", "core_shell_sphere", "parallelepiped", "ellipsoid"]
-SV_SPECS = [("width", 0.15), ("width", 1.5), ("npts", 4), ("npts", 1), ("nsigmas", 2.0), ("type", "schulz"),
+SV_SPECS = [("width", 0.15), ("width", 1.5), ("npts", 4), ("npts", 1), ("nsigmas", 2.5), ("type", "schulz"),
             ("type", "rectangle"), ("value", 1.37)]
 
 
@@ -216,7 +216,7 @@ def _run_mesh(case, ctx):
     P = info.parameters
     pd2 = [p for p in P.call_parameters if p.name in P.pd_2d]
     specs = [{"type": t, "npts": n, "width": w, "nsigmas": ns}
-             for t in TYPES for n in (1, 3, 4) for w in (0.0, 0.2) for ns in (2.0, 3.0)]
+             for t in TYPES for n in (1, 3, 4) for w in (0.0, 0.2) for ns in (2.5, 3.0)]
     other_spec = {"type": "rectangle", "npts": 2, "width": 0.1, "nsigmas": 1.0}
     for dim in ("1d", "2d"):
         active = P.pd_1d if dim == "1d" else P.pd_2d
